@@ -1,6 +1,7 @@
 """Environment model of a contactless device driver (nfc.clf.device.Device
 interface).  For C15 every driver entry point carries the interface
 precondition "the frontend's lock is held by the caller"."""
+import errno
 import nfc.clf
 from pyvc_rt import nondet_int, nondet_bool, nondet_bytes, nondet_bytearray, require
 
@@ -387,3 +388,21 @@ class IsoWtxInChainScriptClf(object):
             require(bytes(data) == bytes([0xF2, 0x01]), 'S(WTX) response echoing the request')
             return bytearray([0x02 | (1 - self.pni)]) + self.second           # last I-block
         require(False, 'no further block after the response')
+
+
+class AnyTransport(object):
+    TYPE = "USB"
+    baudrate = 115200
+
+
+class AnyChipset(object):
+    """What a driver's Device class sees of its Chipset object when only the Device method is under contract: every
+    chipset method returns (nothing the callers below use) or fails with IOError."""
+    transport = AnyTransport()
+
+    def __getattr__(self, name):
+        def call(*args, **kwargs):
+            if nondet_bool():
+                raise IOError(errno.EIO, "input/output error")
+            return None
+        return call
